@@ -293,6 +293,45 @@ class C12(PropCheck):
             if got != ["default", "default", "hit"]:
                 self._oracle = (f"register({form}) of outer -> inner -> innermost: dispatch on (outer, inner, innermost) gives {got}, "
                                 f"expected the hook on innermost only")
+        # a hook registered on a generator-based manager's function applies to that manager wherever its generator is
+        # suspended — also inside helpers it delegates to with `yield from`
+        import contextlib
+
+        import stackscope
+
+        for depth in (0, 1, 2, 3):
+            for form in ("func", "code"):
+                ns3: Dict[str, Any] = {}
+                src3 = "def h0():\n    yield 1\n" + "".join(f"def h{i}():\n    yield from h{i-1}()\n" for i in range(1, depth + 1)) + \
+                       f"def mgr():\n    yield from h{depth}()\n" if depth else "def mgr():\n    yield 1\n"
+                exec(compile(src3, "<gcm>", "exec"), ns3)
+                fn = ns3["mgr"]
+                called = []
+
+                class Inner:
+                    def __enter__(s):
+                        return s
+
+                    def __exit__(s, *a):
+                        return False
+
+                inner = Inner()
+
+                def hook(frame, ctx):
+                    called.append(frame.funcname)
+                    return inner
+
+                stackscope.unwrap_context_generator.register(fn if form == "func" else fn.__code__, hook)
+                m = contextlib.contextmanager(fn)()
+                m.__enter__()
+                try:
+                    ctx = stackscope.Context(obj=m, is_async=False)
+                    stackscope.fill_context(ctx)
+                    if called != ["mgr"] or ctx.obj is not inner:
+                        self._oracle = (f"unwrap_context_generator registered on a generator-based manager ({form}) whose generator delegates "
+                                        f"{depth} level(s) deep: hook calls {called}, Context.obj replaced: {ctx.obj is inner}")
+                finally:
+                    m.__exit__(None, None, None)
         return " ".join(str(r) for r in res)
 
     def run_customize(self, case):
